@@ -7,7 +7,7 @@ modulus on ints, `x ** 2` is `x*x`, `x ** 0.5` is the uninterpreted `sqrt`.
 """
 from fractions import Fraction
 import z3
-from .values import (Sym, SChar, SSeq, SSet, SDict, RandVal, Choice, Obj, ExcVal, Opaque, I, R, B, AI, AR, AB,
+from .values import (Sym, SChar, SSeq, SSet, SDict, ASet, RandVal, Choice, Obj, ExcVal, Opaque, I, R, B, AI, AR, AB,
                      wrap_elem, arr_sort, is_symbolic)
 
 # uninterpreted real functions
@@ -26,6 +26,7 @@ def _uf(f, *a):
     return f(*a)
 
 
+_aset_ctr = [0]
 _hook = None     # set by the interpreter: callable(cond_z3, excname) for implicit exceptions
 
 
@@ -385,6 +386,8 @@ def length(v):
         return mk(v.n, 'int')
     if isinstance(v, SChar):
         return 1
+    if isinstance(v, ASet):
+        return mk(v.card, 'int')
     if isinstance(v, SSet):
         if v.card is None:
             if _card_hook is None:
@@ -764,6 +767,9 @@ def contains(container, x):
         if not is_symbolic(x):
             return x in container
         return mk(z3.Or([cx == ord(c) for c in container]) if container else z3.BoolVal(False), 'bool')
+    if isinstance(container, ASet):
+        _aset_ctr[0] += 1
+        return Sym(z3.Bool('in_aset!%d' % _aset_ctr[0]), 'bool')
     if isinstance(container, SDict):
         return mk(z3.Select(container.dom, z3int(x)), 'bool')
     if isinstance(container, SSet):
